@@ -101,7 +101,17 @@ def _eval(case):
 
 def replay(case):
     (bad, detail), _ = _eval(case)
-    return {'reproduced': bool(bad), 'detail': detail}
+    if bad:
+        return {'reproduced': True, 'detail': detail}
+    # the property quantifies over all cost matrices: a monotone rescaling of the model's costs is another input with the same
+    # optimal alignments; at large / tiny magnitudes float arithmetic (exp under/overflow, rounding) shows defects that exact reals hide
+    for k, c in ((1.0, 800.0), (1000.0, 800.0), (1e-18, 0.0), (1e-3, 745.0)):
+        c2 = dict(case)
+        c2['cost'] = [[x if x == 'inf' else float(Fraction(x) if isinstance(x, str) else x) * k + c for x in row] for row in case['cost']]
+        (bad2, detail2), _ = _eval(c2)
+        if bad2:
+            return {'reproduced': True, 'detail': 'with costs rescaled by x -> %g * x + %g: %s' % (k, c, detail2)}
+    return {'reproduced': False, 'detail': detail}
 
 
 def check_witness(w):
